@@ -510,6 +510,10 @@ class Project(MessageHandler):
 
         failedTasks: list[Any] = []
 
+        # Containers whose children are all placed already (dated milestones) are complete
+        # before the first leaf is scheduled; tasks that depend on them must see that
+        self._updateContainerTaskStatus(scIdx)
+
         while tasks:
             taskToRemove: Optional[Any] = None
             for task in tasks:
@@ -549,7 +553,9 @@ class Project(MessageHandler):
 
         Also compute start/end dates for container tasks based on children.
         """
-        for task in self.tasks:
+        # Children are declared after their container: walking the list backwards closes nested
+        # containers bottom-up, so one call rolls up every nesting level that is complete
+        for task in reversed(list(self.tasks)):
             if task.leaf():
                 continue  # Skip leaf tasks
 
